@@ -473,6 +473,96 @@ def _rule_g5(col, crate, idx):
         col.violation("G5", "%s|paths" % fk(b), b.loc(), "expected Touch and Intersect paths in intersect_cl")
 
 
+def _payload_uses(t, out):
+    """payload projections (proj i (down X v)) of a result enum, in depth-first order"""
+    if not isinstance(t, tuple):
+        return
+    if len(t) == 3 and t[0] == "proj" and isinstance(t[2], tuple) and t[2] and t[2][0] == "down":
+        out.append((t[2][1], t[2][2], t[1]))
+        return
+    if t and t[0] == "mem":
+        return
+    for a in (t[1:] if t and isinstance(t[0], str) else t):
+        if isinstance(a, tuple):
+            _payload_uses(a, out)
+
+
+def _rule_g6(col, crate, fixture=None):
+    """the points a result carries are handed on exactly once each
+
+    (a) the IntoIterator impls of the result enums: on the path of variant v the iterator is built from
+        every payload of v, each once (a two-point result read as the same point twice loses a point);
+    (b) a result built from the payloads of another routine's result (circle-circle from circle-line)
+        carries each of that result's payloads once.
+    Order is not judged."""
+    col.rule("G6", "result payloads are handed on completely and once each: the iterators over the result enums and the circle-circle result built from the circle-line result", floor=9)
+    fk = util.fkey
+    enums = {a["key"]: a for a in crate.adts if a["kind"] == "Enum" and any(f["ty"].endswith("Point") for v in a["variants"] for f in v["fields"])}
+    if fixture and not enums:
+        return
+    n_iter = 0
+    for b in crate.bodies:
+        im = crate.impl_of(b) or {}
+        if b.name != "into_iter" or not str(im.get("trait", "")).endswith("IntoIterator") or im.get("self_adt") not in enums:
+            continue
+        n_iter += 1
+        adt = enums[im["self_adt"]]
+        I = util.analyser([m for m in crate.bodies if not m.is_closure and m.kind in ("Fn", "AssocFn") and m.key != b.key and not util.self_recursive(m)], features=("comb", "fncall"))(b)
+        self_t = ("param", 1, I.names.get(1))
+        seen = set()
+        for st in I.final_states:
+            admitted = set(range(len(adt["variants"])))
+            for f in st.facts:
+                if isinstance(f[1], tuple) and f[1] == ("discr", self_t):
+                    if f[0] == "eq":
+                        admitted &= {f[2]}
+                    elif f[0] == "ne":
+                        admitted -= {f[2]}
+            uses = []
+            _payload_uses(util.ret_term(st), uses)
+            uses = [(v, i) for (x, v, i) in uses if x == self_t]
+            for v in sorted(admitted):
+                vn = adt["variants"][v]["name"]
+                want = sorted((v, i) for i in range(len(adt["variants"][v]["fields"])))
+                key = "%s|%s|yields" % (fk(b), vn)
+                if sorted(uses) == want:
+                    if key not in seen:
+                        col.ok("G6", b.loc(), key, "%d point(s), each payload once" % len(want))
+                else:
+                    col.violation("G6", key, b.loc(), "iterating %s::%s yields payload fields %s, the variant carries %s" % (adt["path"].split("::")[-1], vn, [i for _, i in uses], [i for _, i in want]))
+                seen.add(key)
+    if n_iter == 0:
+        raise Anchor("no IntoIterator impl of an intersection result enum found")
+    # (b) results rebuilt from another routine's result
+    for b in crate.bodies:
+        if b.is_closure or b.kind not in ("Fn", "AssocFn") or b.locals[0]["ty"].split("<")[0] not in [a["path"] for a in enums.values()]:
+            continue
+        I = util.analyse(b)
+        seen = set()
+        for st in I.final_states:
+            r = util.ret_term(st)
+            if not (r[0] == "agg" and isinstance(r[1], tuple) and r[1][0] == "adt" and r[2]):
+                continue
+            uses = []
+            for o in r[2]:
+                if isinstance(o, tuple) and len(o) == 3 and o[0] == "proj" and isinstance(o[2], tuple) and o[2][0] == "down":
+                    uses.append((o[2][1], o[2][2], o[1]))
+                else:
+                    uses = None
+                    break
+            if not uses:
+                continue
+            src = {(x, v) for x, v, _ in uses}
+            key = "%s|%s|from-%s" % (fk(b), r[1][3], str(uses[0][0][1]).split("::")[-1] if uses[0][0][0] == "call" else "argument")
+            got = sorted(i for _, _, i in uses)
+            if len(src) == 1 and got == list(range(len(got))):
+                if key not in seen:
+                    col.ok("G6", b.loc(), key, "carries payloads %s of the inner result, once each" % got)
+            else:
+                col.violation("G6", key, b.loc(), "%s is built from payload fields %s of the inner result: a point is lost or repeated" % (r[1][3], [i for _, _, i in uses]))
+            seen.add(key)
+
+
 def is_eps(c, sign=None):
     return abs(abs(c) - EPSV) < 1e-18 and (sign is None or (c > 0) == (sign > 0))
 
@@ -653,6 +743,7 @@ def check(col, prog, tier, profile, fixture=None):
 
     # ---------------- intersect_cl, G5: the reported points solve the line's equation and sit at the right distance
     _rule_g5(col, crate, (LA, LB, LC, CC, CR, PX, PY))
+    _rule_g6(col, crate, fixture)
 
     # ---------------- intersect_cc
     b = util.need_body(crate, "util::intersect_cc")
